@@ -44,8 +44,21 @@ def check_extra(ctx, rep):
     for fn in inner:
         rep.analysed(MOD, f"_track_execute.{fn.name}")
         for loop in [n for n in walk_shallow(fn) if isinstance(n, ast.For)]:
+            def _has_executions(call):
+                if any(kw.arg == "executions" for kw in call.keywords):
+                    return True
+                for kw in call.keywords:  # update(**name) with name = {"executions": …, …} / dict(executions=…)
+                    if kw.arg is None and isinstance(kw.value, ast.Name):
+                        for st_ in ast.walk(loop):
+                            if isinstance(st_, ast.Assign) and any(isinstance(t_, ast.Name) and t_.id == kw.value.id for t_ in st_.targets):
+                                v_ = st_.value
+                                if isinstance(v_, ast.Dict) and any(isinstance(k_, ast.Constant) and k_.value == "executions" for k_ in v_.keys):
+                                    return True
+                                if isinstance(v_, ast.Call) and call_name(v_) == "dict" and any(k2.arg == "executions" for k2 in v_.keywords):
+                                    return True
+                return False
             ups = [n for n in ast.walk(loop) if isinstance(n, ast.Call) and isinstance(n.func, ast.Attribute) and n.func.attr == "update"
-                   and "tracker" in norm(n.func.value) and any(kw.arg == "executions" for kw in n.keywords)]
+                   and "tracker" in norm(n.func.value) and _has_executions(n)]
             if not ups:
                 continue
             # loop variables bound to circuits: names in the target whose attributes are read in the body (c.shots, c.specs)
